@@ -19,6 +19,15 @@ import (
 
 const VerifDir = "/verif"
 
+// OutDir is where evidence and replay files are written: /verif, or $VERIF_OUT in self-test runs
+// against a scratch copy of the repository.
+func OutDir() string {
+	if d := os.Getenv("VERIF_OUT"); d != "" {
+		return d
+	}
+	return VerifDir
+}
+
 // Ctx describes one invocation of a check.
 type Ctx struct {
 	Prop     string
@@ -227,7 +236,7 @@ func (r *Report) Finish() int {
 	for _, id := range ids {
 		fmt.Printf("KNOWN-FINDING: property=%s %s [%s, %d executions]\n", r.ctx.Prop, r.known[id].What, id, r.knownHits[id])
 	}
-	_ = os.MkdirAll(filepath.Join(VerifDir, "replay"), 0o755)
+	_ = os.MkdirAll(filepath.Join(OutDir(), "replay"), 0o755)
 	printed := 0
 	seenKinds := map[string]int{}
 	for i, v := range r.violations {
@@ -235,7 +244,7 @@ func (r *Report) Finish() int {
 		if seenKinds[v.Kind] > 3 || printed >= 12 {
 			continue
 		}
-		path := filepath.Join(VerifDir, "replay", fmt.Sprintf("%s-%s-s%d-%d.json", r.ctx.Prop, r.ctx.Tier, r.ctx.Seed, i))
+		path := filepath.Join(OutDir(), "replay", fmt.Sprintf("%s-%s-s%d-%d.json", r.ctx.Prop, r.ctx.Tier, r.ctx.Seed, i))
 		b, _ := json.MarshalIndent(map[string]any{"property": r.ctx.Prop, "kind": v.Kind, "msg": v.Msg, "seed": r.ctx.Seed, "tier": r.ctx.Tier, "witness": v.Replay}, "", " ")
 		_ = os.WriteFile(path, b, 0o644)
 		fmt.Printf("VIOLATION property=%s replay=%s\n  kind=%s %s\n", r.ctx.Prop, path, v.Kind, truncate(v.Msg, 600))
@@ -312,8 +321,8 @@ func (r *Report) Finish() int {
 			"violations":  len(r.violations),
 		}
 		b, _ := json.MarshalIndent(ev, "", " ")
-		_ = os.MkdirAll(filepath.Join(VerifDir, "evidence"), 0o755)
-		if err := os.WriteFile(filepath.Join(VerifDir, "evidence", r.ctx.Prop+".json"), append(b, '\n'), 0o644); err != nil {
+		_ = os.MkdirAll(filepath.Join(OutDir(), "evidence"), 0o755)
+		if err := os.WriteFile(filepath.Join(OutDir(), "evidence", r.ctx.Prop+".json"), append(b, '\n'), 0o644); err != nil {
 			fmt.Println("cannot write evidence:", err)
 			if status == 0 {
 				status = 3
